@@ -835,6 +835,11 @@ class HeapMixin:
         m = self.heap.get(other)
         keys = getattr(m, 'explicit_keys', None)
         if keys is None:
+            ro = self.heap.get(recv) if isinstance(recv, Ref) else None
+            if isinstance(ro, Obj) and isinstance(ro.cls, extract.ClassInfo) and ro.cls.qualname == 'h2.settings.Settings' \
+                    and m.elem_cls is None:
+                from .deps_model import settings_update_summary
+                return settings_update_summary(self, recv, ro, other, m, node)
             raise Unsupported('update() from a symbolic map of unknown size (needs a loop rule or a contract)')
         for k in list(keys):
             self.setitem(recv, k, self.getitem(other, k, node), node)
